@@ -46,6 +46,7 @@ UNIT = 1e-6
 UNK = "c07nosuch"          # the unknown name a scripted evaluation refers to
 UNKFN = "c07nofn"          # unknown function operand
 UNKP = "c07nop"            # unknown parameter operand
+TMP = "c07tmp"             # undeclared intermediate of a Klong-source body (implicit function-local)
 
 FORMS = ["grad", "nabla", "jac", "sysjac", "mgrad", "mjac"]
 MONADIC = {"grad", "nabla", "jac", "sysjac"}
@@ -226,8 +227,13 @@ def run_real(case):
 
     klong["tick"] = tick
     klong["ret"] = ret
-    klong(f"f::{{:[tick(x);x*{UNK};ret(x)]}}")
-    klong(f"g::{{:[tick(0);0*{UNK};ret(0)]}}")
+    if case.get("body") == "tmp":
+        # Klong-source body that keeps an intermediate in an undeclared (hence function-local) name
+        klong(f"f::{{{TMP}::tick(x);:[{TMP};x*{UNK};ret(x)]}}")
+        klong(f"g::{{{TMP}::tick(0);:[{TMP};0*{UNK};ret(0)]}}")
+    else:
+        klong(f"f::{{:[tick(x);x*{UNK};ret(x)]}}")
+        klong(f"g::{{:[tick(0);0*{UNK};ret(0)]}}")
 
     def neutral():
         state["mode"] = "neutral"
@@ -288,9 +294,8 @@ def run_real(case):
     for key in sorted(s1):
         if key not in s0:
             lvl, nm = key
-            v = s1[key][2]
-            if isinstance(v, KGSym) and str(v) == nm:
-                continue        # the interpreter's convention: an undefined name evaluates (and is bound) to itself
+            # new names count: the operands the top-level expression itself evaluates are bound
+            # beforehand (see normalize), so nothing may appear during the differentiation
             problems.append((f"c07:{ftag}:new-variable", "unbound", f"{nm}={s1[key][0]}", f"`{expr}` created variable {nm}"))
     # final store in the model's terms: value and kind of every initial name
     for n in names:
@@ -447,10 +452,13 @@ def systematic_cases(backends, thorough):
                     for k in range(0, 2 * size + 3 + (2 if multi else 0)):
                         if mode == "s" and k > 0:
                             continue
-                        yield dict(kind="grad", backend=be, form=form, params=["w", "b"] if multi else ["w"],
-                                   store=[["w", 0], ["b", 1], ["c", 2], ["a", 0]],
-                                   heap=[pc, ["pyfloat", [], [M // 4]], ["f64", [2], [5 * M, 6 * M]]],
-                                   script=["s"] * k + [mode])
+                        c = dict(kind="grad", backend=be, form=form, params=["w", "b"] if multi else ["w"],
+                                 store=[["w", 0], ["b", 1], ["c", 2], ["a", 0]],
+                                 heap=[pc, ["pyfloat", [], [M // 4]], ["f64", [2], [5 * M, 6 * M]]],
+                                 script=["s"] * k + [mode])
+                        yield c
+                        if k <= 1 and mode in "sru":
+                            yield dict(c, body="tmp")
 
 
 def random_case(rng, backends, thorough):
@@ -479,6 +487,8 @@ def random_case(rng, backends, thorough):
         case["params"][rng.randrange(len(params))] = UNKP      # unknown parameter name
     elif r < 0.10:
         case["fn_unknown"] = True                               # unknown function name
+    if rng.random() < 0.4:
+        case["body"] = "tmp"                                    # body with an undeclared intermediate
     n = n_probes(case) if UNKP not in case["params"] else 3
     style = rng.random()
     if style < 0.35:                      # a single deviation at a random evaluation
@@ -489,6 +499,82 @@ def random_case(rng, backends, thorough):
         script = ["s" if rng.random() < 0.8 else rng.choice("rvpu") for _ in range(rng.randrange(0, n + 2))]
     case["script"] = script
     return case
+
+
+SOURCE_BODIES = {
+    # niladic (multi-parameter forms) / monadic (point forms) Klong-source functions, no Python inside
+    "intermediate": ("{c07e::(w*w)+b;+/c07e*c07e}", "{c07e::x*x;+/c07e}"),
+    "two-intermediates": ("{c07e::w*2;c07t::(c07e*c07e)+b;+/c07t}", "{c07e::x*2;c07t::c07e*c07e;+/c07t}"),
+    "unknown-name": ("{+/w*c07q}", "{+/x*c07q}"),
+    "intermediate-then-unknown": ("{c07e::w*w;+/c07e*c07q}", "{c07e::x*x;+/c07e*c07q}"),
+    "vector-valued": ("{c07t::w*2;(c07t*c07t)+b}", "{c07t::x*2;c07t*c07t}"),
+    "declared-local": ("{[c07e];c07e::(w*w)+b;+/c07e*c07e}", "{[c07e];c07e::x*x;+/c07e}"),
+}
+
+
+def source_cases(backends):
+    for be in backends:
+        for form in FORMS:
+            for body in SOURCE_BODIES:
+                for wk in (["f64", [3], [M, 2 * M, 3 * M]], ["pyfloat", [], [M // 2]]) + \
+                        ((["t32", [2], [M, 2 * M]],) if be == "torch" else ()):
+                    yield dict(kind="source", backend=be, form=form, body=body, w=list(wk))
+
+
+def run_source(case):
+    """Pure Klong-source loss (no Python inside): intermediates kept in undeclared names and
+    unknown names.  Oracle only: by-value snapshot of ALL variables of all context levels (names
+    included — new names count) before/after the gradient expression, returning or raising, and
+    the function's plain evaluation before/after."""
+    from klongpy import KlongInterpreter
+    if case["backend"] == "torch":
+        klong = KlongInterpreter(backend="torch", device="cpu")
+    else:
+        klong = KlongInterpreter()
+    form = case["form"]
+    klong["w"] = make_value(*case["w"])
+    klong["b"] = 0.5
+    nil, mon = SOURCE_BODIES[case["body"]]
+    klong("g::" + nil)
+    klong("f::" + mon)
+    expr = expr_of(dict(form=form, params=["w", "b"] if form in ("mgrad", "mjac") else ["w"]))
+
+    def snapshot():
+        return {(lvl, str(k_)): view(v) for lvl, d in enumerate(klong._context._context) for k_, v in d.items()}
+
+    def plain():
+        try:
+            return view(klong("f(w)" if form in MONADIC else "g()"))
+        except Exception as e:
+            return "raises:" + type(e).__name__
+    before_val = plain()
+    s0 = snapshot()
+    d0 = len(klong._context._context)
+    try:
+        klong(expr)
+        outcome = "ok"
+    except Exception:
+        outcome = "exc"
+    s1 = snapshot()
+    problems = []
+    tag = f"c07:{case['backend']}:{form}:source"
+    new = sorted(nm for (lvl, nm) in s1 if (lvl, nm) not in s0)
+    if new:
+        problems.append((f"{tag}:new-variable", "no new variable", {nm: s1[k] for k in s1 for nm in [k[1]] if k not in s0},
+                         f"`{expr}` ({outcome}) with g::{nil} / f::{mon} left new global variable(s) {new}"))
+    changed = sorted(k[1] for k in s0 if k in s1 and s1[k] != s0[k])
+    gone = sorted(k[1] for k in s0 if k not in s1)
+    if changed or gone:
+        problems.append((f"{tag}:variable-changed", {n: s0[k] for k in s0 for n in [k[1]] if n in changed + gone},
+                         {n: s1.get(k, "unbound") for k in s0 for n in [k[1]] if n in changed + gone},
+                         f"`{expr}` ({outcome}) changed/removed variable(s) {changed + gone}"))
+    if len(klong._context._context) != d0:
+        problems.append((f"{tag}:context-depth", d0, len(klong._context._context), "context frame leaked or dropped"))
+    after_val = plain()
+    if after_val != before_val or snapshot() != s1:
+        problems.append((f"{tag}:f-after-differs", before_val, after_val,
+                         f"the plain evaluation after `{expr}` differs from the one before (or now changes the state)"))
+    return dict(problems=problems, expr=expr, outcome=outcome)
 
 
 def literal_cases(backends):
@@ -502,6 +588,25 @@ def literal_cases(backends):
 
 # --------------------------------------------------------------------------- one case
 
+def normalize(case):
+    """The top-level expression evaluates its bare-name operands itself (an undefined name is then
+    bound to itself by `KlongInterpreter.eval`, gradient operator or not): the function operand in
+    every form and the point operand of f:>p, p∂f, .jacobian(f;p).  Those names are bound to
+    themselves BEFORE the snapshot, so that any name appearing afterwards was created by the
+    differentiation."""
+    if case.get("kind") != "grad":
+        return case
+    case = dict(case, store=[list(e) for e in case["store"]])
+    names = [n for n, _ in case["store"]]
+    if case.get("fn_unknown") and UNKFN not in names:
+        case["store"].append([UNKFN, "~" + UNKFN])
+    if case["form"] in ("grad", "jac", "sysjac"):
+        for p_ in case["params"]:
+            if p_ not in [n for n, _ in case["store"]]:
+                case["store"].append([p_, "~" + p_])
+    return case
+
+
 def _diff(m, d):
     mf, df = fields(m), fields(d)
     keys = [k for k in mf if mf.get(k) != df.get(k)] + [k for k in df if k not in mf]
@@ -509,6 +614,14 @@ def _diff(m, d):
 
 
 def run_case(ctx, drv, case):
+    case = normalize(case)
+    if case.get("kind") == "source":
+        r = run_source(case)
+        for key, exp, obs, what in r["problems"]:
+            ctx.oracle_fail(key, case, exp, obs, what)
+        ctx.count(json.dumps(case, sort_keys=True))
+        ctx.bump("klong-source-body:" + case["body"])
+        return r
     if case.get("kind") == "literal":
         r = run_literal(case)
         for key, exp, obs, what in r["problems"]:
@@ -599,7 +712,9 @@ def run(ctx):
         if cdir.exists():
             for p in sorted(cdir.glob("*.json")):
                 run_case(ctx, drv, json.loads(p.read_text()))
-        # 3. systematic sweep
+        # 3. Klong-source bodies (undeclared intermediates, unknown names), then the systematic sweep
+        for case in source_cases(backends):
+            run_case(ctx, drv, case)
         for case in systematic_cases(backends, thorough):
             run_case(ctx, drv, case)
         for case in literal_cases(backends):
@@ -620,7 +735,7 @@ def replay(ctx, case):
     drv = Driver("c07") if getattr(ctx, "driver_ok", True) else None
     c = case.get("case", case)
     try:
-        if isinstance(c, dict) and c.get("kind") in ("grad", "literal"):
+        if isinstance(c, dict) and c.get("kind") in ("grad", "literal", "source"):
             r = run_case(ctx, drv, c)
             print("replay:", r.get("expr"), {k: v for k, v in r.items() if k in ("outcome", "calls", "final", "heap")})
         else:
